@@ -102,7 +102,7 @@ Fixpoint nat_expr (fuel : nat) (genv en : nenv) (e : expr) (out : list N) {struc
     match e with
     | ENum z => NOk (VInt z) out
     | EBool b => NOk (VBool b) out
-    | EStr s => NOk (VStr s) out
+    | EStr s => NOk (VStr (unescape s)) out
     | EVar x =>
         match nlookup x en with
         | Some (_, v) => NOk v out
